@@ -138,7 +138,7 @@ Core ==
   \cup {Sc("var", x) : x \in {M1, Zero, U(63), U(64), N(65), Min64}}
   \cup {Sc("uvar", x) : x \in {U(127), U(128), MaxU64}}
   \cup {Ln("arrlen", x) : x \in {-1, 2}}
-  \cup {Ln("carrlen", x) : x \in {0, 127}}
+  \cup {Ln("carrlen", x) : x \in {1, 127}}
   \cup {Ln("bool", 1)}
   \cup {Ln("bytes", x) : x \in {-1, 0, 3}}
   \cup {Ln("varbytes", x) : x \in {-1, 0, 64}}
@@ -316,14 +316,18 @@ DecStep(d, op, raw, crcs) ==
     [] op.k = "arrlen" ->                                    \* getArrayLength: count must not exceed remaining
          LET g == GetFixed(d, raw, 4) IN
          IF ~g.ok THEN Fail(d, raw, g.e)
-         ELSE IF ~FitsSmall(g.v) THEN Fail(d, raw, IF IsNeg(g.v) THEN "negative" ELSE "insufficient")
+         ELSE IF ~FitsSmall(g.v) THEN (IF IsNeg(g.v) THEN Fail([d EXCEPT !.off = g.off], raw, "invalid array length")
+                                       ELSE Fail(d, raw, "insufficient"))
          ELSE IF Small(g.v) > Len(raw) - g.off THEN Fail(d, raw, "insufficient")
-         ELSE IF Small(g.v) > 131070 THEN Fail([d EXCEPT !.off = g.off], raw, "invalid array length")
+         ELSE IF Small(g.v) > 131070 \/ Small(g.v) < -1 THEN Fail([d EXCEPT !.off = g.off], raw, "invalid array length")
          ELSE Ret([d EXCEPT !.off = g.off], Cell(Small(g.v), <<>>, <<>>))
-    [] op.k = "carrlen" ->                                   \* getCompactArrayLength: 0 (null) reads as 0
+    [] op.k = "carrlen" ->                                   \* getCompactArrayLength: 0 (null) reads as 0; count must not exceed remaining
          LET g == GetUV(d, raw) IN
          IF ~g.ok THEN Fail([d EXCEPT !.off = g.off], raw, g.e)
-         ELSE Ret([d EXCEPT !.off = g.off], Cell(IF g.v = Zero THEN 0 ELSE Small(g.v) - 1, <<>>, <<>>))
+         ELSE IF g.v = Zero THEN Ret([d EXCEPT !.off = g.off], Cell(0, <<>>, <<>>))
+         ELSE IF ~FitsSmall(g.v) \/ Small(g.v) - 1 > Len(raw) - g.off THEN Fail(d, raw, "insufficient")
+         ELSE IF Small(g.v) - 1 > 131070 THEN Fail([d EXCEPT !.off = g.off], raw, "invalid array length")
+         ELSE Ret([d EXCEPT !.off = g.off], Cell(Small(g.v) - 1, <<>>, <<>>))
     [] op.k = "bool" -> LET g == GetFixed(d, raw, 1) IN
          IF ~g.ok THEN Fail(d, raw, g.e)
          ELSE IF g.v \notin {Zero, U(1)} THEN Fail([d EXCEPT !.off = g.off], raw, "invalid bool")
@@ -355,20 +359,20 @@ DecStep(d, op, raw, crcs) ==
               ELSE IF l > Len(raw) - g.off THEN Fail(d, raw, "insufficient")
               ELSE IF l = -1 THEN Ret([d EXCEPT !.off = g.off], Cell(IF op.k = "str" THEN 0 ELSE -1, <<>>, <<>>))
               ELSE Ret([d EXCEPT !.off = g.off + l], Cell(l, <<>>, SubSeq(raw, g.off + 1, g.off + l)))
-    [] op.k \in {"cstr", "ncstr"} ->                         \* no bound check against remaining (C10's business)
+    [] op.k \in {"cstr", "ncstr"} ->                         \* getCompactLength: 0 = null, length - 1 must not exceed remaining
          LET g == GetUV(d, raw) IN
          IF ~g.ok THEN Fail([d EXCEPT !.off = g.off], raw, g.e)
-         ELSE IF ~FitsSmall(g.v) THEN Fail([d EXCEPT !.off = g.off], raw, "out of model")
+         ELSE IF g.v = Zero THEN (IF op.k = "ncstr" THEN Ret([d EXCEPT !.off = g.off], Cell(-1, <<>>, <<>>))
+                                  ELSE Fail([d EXCEPT !.off = g.off], raw, "invalid string length"))
+         ELSE IF ~FitsSmall(g.v) \/ Small(g.v) - 1 > Len(raw) - g.off THEN Fail(d, raw, "insufficient")
          ELSE LET l == Small(g.v) - 1 IN
-              IF l < 0 THEN (IF op.k = "ncstr" THEN Ret([d EXCEPT !.off = g.off], Cell(-1, <<>>, <<>>))
-                             ELSE Fail([d EXCEPT !.off = g.off], raw, "panic: slice bounds"))
-              ELSE IF l > Len(raw) - g.off THEN Fail([d EXCEPT !.off = g.off], raw, "panic: slice bounds")
-              ELSE Ret([d EXCEPT !.off = g.off + l], Cell(l, <<>>, SubSeq(raw, g.off + 1, g.off + l)))
+              Ret([d EXCEPT !.off = g.off + l], Cell(l, <<>>, SubSeq(raw, g.off + 1, g.off + l)))
     [] op.k = "strarr" -> LET g == GetFixed(d, raw, 4) IN
          IF ~g.ok THEN Fail(d, raw, g.e)
          ELSE IF ~FitsSmall(g.v) THEN Fail([d EXCEPT !.off = g.off], raw, "out of model")
-         ELSE IF Small(g.v) = 0 THEN Ret([d EXCEPT !.off = g.off], Cell(-1, <<>>, <<>>))
+         ELSE IF Small(g.v) \in {0, -1} THEN Ret([d EXCEPT !.off = g.off], Cell(-1, <<>>, <<>>))   \* count read as signed, -1 = null
          ELSE IF Small(g.v) < 0 THEN Fail([d EXCEPT !.off = g.off], raw, "invalid array length")
+         ELSE IF Small(g.v) > (Len(raw) - g.off) \div 2 THEN Fail(d, raw, "insufficient")         \* a string takes >= 2 bytes
          ELSE LET s == StrArr(raw, g.off, Small(g.v), <<>>, <<>>) IN
               IF s.ok THEN Ret([d EXCEPT !.off = s.off], Cell(Small(g.v), s.ls, s.cs))
               ELSE Fail([d EXCEPT !.off = s.off], raw, s.e)
@@ -382,14 +386,13 @@ DecStep(d, op, raw, crcs) ==
               ELSE IF n = 0 THEN Ret([d EXCEPT !.off = g.off], Cell(-1, <<>>, <<>>))
               ELSE IF n < 0 THEN Fail([d EXCEPT !.off = g.off], raw, "invalid array length")
               ELSE Ret([d EXCEPT !.off = g.off + w * n], Cell(n, FixedArr(raw, g.off, w, n), <<>>))
-    [] op.k \in {"ci32arr", "nci32arr"} ->                   \* no bound check against remaining (C10's business)
+    [] op.k \in {"ci32arr", "nci32arr"} ->                   \* count must not exceed remaining / 4
          LET g == GetUV(d, raw) IN
          IF ~g.ok THEN Fail([d EXCEPT !.off = g.off], raw, g.e)
-         ELSE IF ~FitsSmall(g.v) THEN Fail([d EXCEPT !.off = g.off], raw, "out of model")
          ELSE IF g.v = Zero THEN Ret([d EXCEPT !.off = g.off], Cell(-1, <<>>, <<>>))
+         ELSE IF ~FitsSmall(g.v) \/ Small(g.v) - 1 > (Len(raw) - g.off) \div 4 THEN Fail(d, raw, "insufficient")
          ELSE LET n == Small(g.v) - 1 IN
-              IF Len(raw) - g.off < 4 * n THEN Fail([d EXCEPT !.off = g.off], raw, "panic: index out of range")
-              ELSE Ret([d EXCEPT !.off = g.off + 4 * n], Cell(n, FixedArr(raw, g.off, 4, n), <<>>))
+              Ret([d EXCEPT !.off = g.off + 4 * n], Cell(n, FixedArr(raw, g.off, 4, n), <<>>))
     [] op.k = "push_len" ->                                  \* lengthField.decode
          LET g == GetFixed(d, raw, 4) IN
          IF ~g.ok THEN Fail(d, raw, g.e)
@@ -464,7 +467,7 @@ Ref(ops, i, j) ==
      field \o body \o Ref(ops, m + 1, j)
   ELSE Enc(ops[i]) \o Ref(ops, i + 1, j)
 
-\* getArrayLength refuses a count larger than the bytes that follow: the documented domain of an ARRAY
-\* count is "followed by that many elements of at least one byte"
-InDomain(ops, offs, total) == \A i \in 1..Len(ops) : (ops[i].k = "arrlen") => ops[i].n <= total - offs[i]
+\* getArrayLength and getCompactArrayLength refuse a count larger than the bytes that follow: the domain of an
+\* (COMPACT_)ARRAY count is "followed by that many elements of at least one byte each"
+InDomain(ops, offs, total) == \A i \in 1..Len(ops) : (ops[i].k \in {"arrlen", "carrlen"}) => ops[i].n <= total - offs[i]
 =============================================================================
